@@ -11,6 +11,7 @@ import WpModel.Lemmas.Boxes
 import WpModel.Lemmas.Tables
 import WpModel.Lemmas.TableKinds
 import WpModel.Lemmas.Threading
+import WpModel.Lemmas.SpaceFlags
 
 namespace Wp.C08
 open Wp Wp.Bx Wp.TableGrid
@@ -827,6 +828,40 @@ theorem inline_in_block_structure (b b' : KBox) (force : Bool) (h : Good b) (hr 
 theorem inline_in_block_same (b b' : KBox) (force : Bool) (hr : iib force b = .ok b') :
     b'.kind = b.kind ∧ b'.st = b.st ∧ b'.text = b.text ∧ b'.el = b.el :=
   let h := iib_same force b b' hr; ⟨h.1, h.2.1, h.2.2.2.1, h.2.2.2.2⟩
+
+/-- Collapsed spaces are remembered as break opportunities (the state `trailing_collapsible_space` of the
+property): whenever the last child of a box that is not running is a text box emptied by
+`process_whitespace` with `leading_collapsible_space` set (`CollapsedSpace`), `inline_in_block` removes it
+and the box carries `trailing_collapsible_space` afterwards — for every box class, every other child and
+every incoming flag.  (This is the flag `split_inline_box` reads as the line-break opportunity after the
+box; a regression here changes no text and no box, only line breaking.) -/
+theorem inline_in_block_trailing_flag (force : Bool) (b b' : KBox) (ks : List KBox) (t : KBox)
+    (hrun : b.st.run = false) (hk : b.kids = ks ++ [t]) (ht : CollapsedSpace t) (h : iib force b = .ok b') :
+    b'.inst.tcs = true := iib_trailing force b b' ks t hrun hk ht h
+
+/-- `word <b> </b>word`, function level to pipeline: an inline box holding one run of spaces / tabs under
+any collapsing `white-space`, met after a collapsible space, goes through `process_whitespace` and
+`inline_in_block` as an inline box without children that carries `leading_` and
+`trailing_collapsible_space`, and the state handed to what follows is still "a collapsible space precedes". -/
+theorem collapsed_space_is_break_opportunity (st : Style) (el : El) (inst : Inst)
+    (tk : BoxKind) (tst : Style) (tel : El) (tinst : Inst) (text : Text)
+    (hrun : st.run = false) (htk : Gen.isSub tk .TextBox = true) (htrun : tst.run = false)
+    (hws : spaceCollapse tst.ws = true) (hne : text ≠ []) (hsp : AllSpTab text) :
+    ∃ b', iib false (pw (.mk .InlineBox st el inst [] [.mk tk tst tel tinst text [] []] []) true).1 = .ok b' ∧
+      b'.kids = [] ∧ b'.inst.tcs = true ∧ b'.inst.lcs = true ∧
+      (pw (.mk .InlineBox st el inst [] [.mk tk tst tel tinst text [] []] []) true).2 = true :=
+  emptied_inline_keeps_break_opportunity st el inst tk tst tel tinst text hrun htk htrun hws hne hsp
+
+/-- `p[ "a ", b[" "], "c" ]`: after `process_whitespace` and `inline_in_block` the line holds `a `, an empty
+`b` with both flags, and `c`. -/
+example :
+    let t (s : List Nat) : KBox := .mk .TextBox {} {} {} s [] []
+    let p : KBox := .mk .BlockBox {} {} {} [] [t [97, 32], .mk .InlineBox {} {} {} [] [t [32]] [], t [99]] []
+    (match iib false (pw p false).1 with
+      | .ok r => r.kids.map (fun (l : KBox) => l.kids.map (fun (c : KBox) => (c.kind, c.text, c.inst.lcs, c.inst.tcs)))
+      | .error _ => []) =
+    [[(.TextBox, [97, 32], false, false), (.InlineBox, [], true, true), (.TextBox, [99], false, false)]] := by
+  decide +kernel
 
 /-- Leaf preservation: the text of the tree is unchanged, in order, except for U+0020 characters
 (the only leaves removed are empty text boxes and a single collapsible space at the start of a line). -/
